@@ -34,6 +34,26 @@ def main(argv):
     ctx = core.Ctx(pid, tier)
     try:
         explanation = mod.run(ctx)
+        if tier == "thorough" and not os.environ.get("XFAB_SELFTEST_CHILD"):
+            # the thorough tier also tests the checker both ways on the self-test variants of this property
+            from concurrent.futures import ThreadPoolExecutor
+            from selftest.run import one
+            from selftest.mutations import M
+            todo = [(k, e) for k, e in enumerate(M) if e[0] == pid]
+            bad = []
+            with ThreadPoolExecutor(max_workers=16) as ex:
+                for idx, _pid, verdict, msg in ex.map(one, todo):
+                    if verdict != "ok":
+                        bad.append("#%d %s: %s" % (idx, verdict, msg[:160]))
+            nbreak = sum(1 for _k, e in todo if e[5] == "violation")
+            ctx.extra["selftest"] = {"variants": len(todo), "breaking_caught": nbreak - sum(1 for b in bad if "MISSED" in b),
+                                     "breaking": nbreak, "behaviour_preserving": len(todo) - nbreak, "not_as_expected": bad}
+            print("  selftest: %d variants of %s (%d breaking, %d behaviour-preserving), %d not as expected"
+                  % (len(todo), pid, nbreak, len(todo) - nbreak, len(bad)))
+            if bad:
+                for b in bad:
+                    print("  SELFTEST", b)
+                raise core.AnalysisError("self-test of the checker failed: %d variant(s) not as expected" % len(bad))
         if replay:
             want = {v["key"] for v in json.load(open(replay)).get("violations", [])}
             still = [f for f in ctx.fails if f["key"] in want]
